@@ -18,6 +18,11 @@ package datastore
 //@ guarded repoT.mutCurID, repoT.mutSavedID by mutMu
 //@ guarded repoT.data by RWMutex
 
+// Lock order (C20: no request can wedge the server; C11): the repo's lock is acquired before a node's lock -
+// never the other way round (the functions that lock both - addToNodeLog, newVersion, merge, commit, ... -
+// take the repo lock first; a goroutine that takes them in the opposite order deadlocks against them).
+//@ lockorder repoT.RWMutex nodeT.RWMutex
+
 
 //@ func repoT.newMutationID
 //@   lockset
